@@ -64,6 +64,9 @@ def run(repo, rep):
     rep.clause("C09-w", "scale comparisons compare two different operands (no comparison helper or ==/!= with identical sides; expected count 0, matcher exercised)")
     rep.clause("C09-x", "TOSA AVG_POOL2D reciprocal multiplier: numerator ((1 << 30) + 1) << k, shift 30 + k (folded for k = 0..6)")
     rule_round11(repo, rep)
+    rep.clause("C09-y", "the reduced int16 scaling is selected by the declared tensor types (conjunct set of the selecting test)")
+    rep.clause("C09-z", "constant folding of a float QUANTIZE rounds value / scale (no reciprocal) [also reported under C19]")
+    rule_round12(repo, rep)
     rep.undecided("relative error bounds, equality with the TFLite derivation for all real scales")
     sc = repo.mod("scaling")
 
@@ -1066,3 +1069,32 @@ def rule_round11(repo, rep):
             wrong = (k, got, gs)
     rep.check(wrong is None, "C09-x", tsite, "numerator = ((1 << 30) + 1) << k with shift 30 + k for k = 0..6",
               f"k = {wrong[0]}: numerator {wrong[1]}, shift {wrong[2]}: the rounding term is not scaled with 2^k - a window sum exactly half-way (3 over a 2x3 window) is rounded down" if wrong else "")
+
+
+def rule_round12(repo, rep):
+    """(y) the reduced (15 bit) scaling of the int16 reference is selected by the *declared* types: `ifm_dtype == DataType.int16 and
+    bias_tens.dtype == DataType.int64` - the element type of the values array (what numpy happened to pick) says nothing about the
+    operator (conjunct set of the selecting test in _prepare_scale_and_bias)."""
+    from ..exprnorm import conjuncts as _cj
+
+    wc = repo.mod("weight_compressor")
+    fn = wc.func("_prepare_scale_and_bias")
+    site = "ethosu/vela/weight_compressor.py:_prepare_scale_and_bias"
+    sel = [i for i in ast.walk(fn) if isinstance(i, ast.If) and any(isinstance(c, ast.Call) and (call_name(c) or "").endswith("reduced_quantise_scale") for st in i.body for c in ast.walk(st))]
+    if len(sel) != 1:
+        raise AnalysisError(f"_prepare_scale_and_bias: {len(sel)} tests select the reduced scaling")
+    cj = sorted(str(norm(c)) for c in _cj(sel[0].test))
+    want = sorted(["ifm_dtype == DataType.int16", "bias_tens.dtype == DataType.int64"])
+    alt = sorted(["DataType.int16 == ifm_dtype", "DataType.int64 == bias_tens.dtype"])
+    rep.check(cj in (want, alt), "C09-y", site, "reduced scaling is selected by the declared IFM and bias types", f"selected by {cj}: an int16 operator whose int32 bias sits in an int64 array gets the 15-bit multiplier (and the converse the full one)")
+    # (z) the constant folding of a float QUANTIZE divides by the scale as the reference kernel does (a reciprocal multiplied in rounds ties differently)
+    go = repo.mod("tflite_graph_optimiser")
+    oq = go.func("optimise_quantize")
+    osite = "ethosu/vela/tflite_graph_optimiser.py:optimise_quantize"
+    calls = [c for c in ast.walk(oq) if isinstance(c, ast.Call) and (call_name(c) or "") == "round_away_zero" and c.args]
+    if not calls:
+        raise AnalysisError("optimise_quantize: rounding of the folded value not found")
+    for c in calls:
+        a = c.args[0]
+        ok = isinstance(a, ast.BinOp) and isinstance(a.op, ast.Div) and str(norm(a.right)).endswith(".scale_f32")
+        rep.check(ok, "C09-z", osite, f"`{str(norm(c))[:70]}` divides the value by the output scale", "the value is not divided by the scale itself (a precomputed reciprocal lands on the other side of .5 for constants on a rounding boundary: the folded constant is off by one code)")
